@@ -167,6 +167,13 @@ theorem model_babai_reduce_preserves_ntru {R : Type} [CommRing R] (j : Nat) (f g
       RingZ.ev f ρ * RingZ.ev cG ρ - RingZ.ev g ρ * RingZ.ev cF ρ :=
   (Keygen.babaiBig_inv (R := R) j f g cF cG hf hg h1 h2).2.2 ρ hρ
 
+/-- every key the executable model of `ntru_gen` returns went through all four guards: coefficients of f, g below the
+    format's limit, no zero NTT slot of f (f invertible mod q), Gram–Schmidt norm not above 1.3689·q (as the floating-point
+    computation sees it), solved by the modelled `ntru_solve_entrypoint`, and |F|, |G| ≤ 127 -/
+theorem model_keys_pass_all_guards (chk : Bool) (n : Nat) (seed : List Nat) (f g cF cG : List Int) (k : Nat)
+    (h : Keygen.ntruGen chk n seed = .ok (.key f g cF cG k)) : Keygen.Accepted chk n f g cF cG :=
+  Keygen.ntruGen_accepted chk n seed f g cF cG k h
+
 /-- non-vacuity: the model of NTRUSolve on (f, g) = (1 + X, 3 + 2X) (n = 2; N f = 2, N g = 13, −6·2 + 1·13 = 1, no Babai
     rounds) returns a pair that solves the equation over ℤ -/
 example : RingZ.ntruSolve (fun _ _ => (1, -6, 1)) (fun _ _ _ => []) 1 [1, 1] [3, 2] =
